@@ -19,6 +19,7 @@ creation), the bookkeeping state (`hasher.nodes`, `_failed_clients`, `_dead_clie
 every client object registered in `self.clients`, its identity, whether it has a socket and how many bytes are left
 unread on it.
 """
+from common import FakeClock
 import os
 import random
 import subprocess
@@ -341,10 +342,7 @@ def run_python(params, history):
     n, ra, rt, dt, ign, t0 = params
     w = World()
 
-    class FakeTime:
-        @staticmethod
-        def time():
-            return w.now
+    FakeTime = FakeClock(lambda: w.now)
 
     class CountingClient(Client):
         def __init__(self, *a, **kw):
